@@ -241,7 +241,7 @@ func execRun(st *Store, sc Scenario, auto bool, sess *Session) (res RunResult) {
 	bd := newBoard()
 	ctx, cancel := context.WithCancel(context.Background())
 	defer cancel()
-	if sc.Env.Cancel.Kind == CBeforeSync {
+	if sc.Env.Cancel.Kind == CBeforeSync && !sc.Env.Cancel.ByWatcher {
 		cancel()
 	}
 	srv := NewServer(st, clock, sc.Env)
